@@ -36,7 +36,7 @@ Theorem c13_read_force_quote : forall pos p m s, m <> QBackslash -> no_nul s ->
 Proof. exact read_force_quote. Qed.
 Print Assumptions c13_read_force_quote.
 
-(** unchanged code: the round trip holds outside the class [Known] (a leading ~ or #, a ~ after : or =) *)
+(** regression example, code before the repair ([pos = false]): the round trip holds outside the class [Known] (a leading ~ or #, a ~ after : or =) *)
 Theorem c13_read_quote_outside_known : forall p o s, avoid_nl o = false -> no_nul s -> ~ Known s ->
   read_word p (quote false o s) = Some s.
 Proof. exact read_quote_outside_known. Qed.
@@ -95,6 +95,23 @@ Theorem c13_decl_assoc_refuted :
   exists kvs, Forall kv_ok_assoc kvs /\ read_compound (fmt_assoc false kvs) <> Some kvs.
 Proof. exact read_assoc_refuted. Qed.
 Print Assumptions c13_decl_assoc_refuted.
+
+(** the code as it is now: the regenerated flags say the position test and the three-digit octal rule
+    are in place, so the round trips hold without a side condition on the printer *)
+Theorem c13_read_quote_current : forall p o s, avoid_nl o = false -> no_nul s ->
+  read_word p (quote positional_escaping o s) = Some s.
+Proof. exact read_quote_current. Qed.
+Print Assumptions c13_read_quote_current.
+
+Theorem c13_decode_ansi_body_current : forall s, Forall (fun c => c <> 0%N) s ->
+  decode zero_octal_digits_ansic (ansi_body s) = DOk (utf8s s).
+Proof. exact decode_ansi_body_current. Qed.
+Print Assumptions c13_decode_ansi_body_current.
+
+Theorem c13_decl_assoc_current : forall kvs, Forall kv_ok_assoc kvs ->
+  read_compound (fmt_assoc positional_escaping kvs) = Some kvs.
+Proof. exact read_assoc_current. Qed.
+Print Assumptions c13_decl_assoc_current.
 
 Theorem c13_nonvacuous :
   read_word Arg (quote_if_needed true QBackslash [TILDE; 97; 32; 39; 36]%N) = Some [TILDE; 97; 32; 39; 36]%N
